@@ -26,6 +26,7 @@ def check(ctx):
                 "ReaderTrace.tla. A case is non-trivial when it performs an operation (everything but 'obs'); distinct by "
                 "(buffer, position, op, n) resp. by trace content.")
     ctx.assumptions += ["n >= 0 for Read/Peek (a negative length is outside the property's domain)",
+                        "TLC integers are 32-bit: a length above 2^30 (binding B tries 2^16 .. 2^63-1) is written to the trace as 2^30; the specification only asks whether n exceeds what is left",
                         "integers returned by the reader are rendered as big-endian octets by 12 lines of driver code"]
     # ---- model: exhaustive bounded, with case emission
     maxlen = 12 if thorough else 9
